@@ -39,6 +39,8 @@ var c07Org = map[string]string{
 	"sibling.example.co.uk": "example.co.uk", "x.example.co.uk": "example.co.uk",
 	"co.uk": "", "org": "", "uk": "", "x.co.uk": "x.co.uk",
 	"other.net": "other.net", "": "-",
+	// names that merely end in the From domain's organisational domain, not at a label boundary
+	"notexample.org": "notexample.org", "notexample.co.uk": "notexample.co.uk", "notco.uk": "notco.uk",
 }
 
 var c07FromDomains = []string{"example.org", "sub.example.org", "mail.example.co.uk", "example.co.uk", "co.uk", "Sub.Example.ORG"}
@@ -55,10 +57,11 @@ const (
 	relUnrelated
 	relUpper
 	relEmpty
+	relLookalike
 	relCount
 )
 
-var c07RelNames = []string{"same", "subdomain", "org", "sibling", "public-suffix", "unrelated", "upper-case-same", "empty"}
+var c07RelNames = []string{"same", "subdomain", "org", "sibling", "public-suffix", "unrelated", "upper-case-same", "empty", "look-alike-suffix"}
 
 func c07Lower(s string) string { return strings.ToLower(s) }
 
@@ -90,6 +93,11 @@ func c07Rel(from string, rel int) string {
 		return "other.net"
 	case relUpper:
 		return strings.ToUpper(from)
+	case relLookalike:
+		if org == "" {
+			return "not" + lf
+		}
+		return "not" + org
 	default:
 		return ""
 	}
@@ -111,6 +119,9 @@ type c07Scenario struct {
 	P         string  `json:"p"`  // none quarantine reject, or "" (absent: invalid record)
 	SP        string  `json:"sp"` // "" absent
 	Pct100    bool    `json:"pct100"`
+	// the check that contributes the SPF/DKIM results also quarantines the message on its own (e.g. check.dkim
+	// with broken_sig_action quarantine): the DMARC evaluation must still see its results
+	CheckQuarantines bool `json:"check_quarantines,omitempty"`
 	// 0 record at From domain; 1 record only at organisational domain (From domain NXDOMAIN);
 	// 2 no DMARC record (unrelated TXT at both); 3 two DMARC records at From domain; 4 NXDOMAIN for both names;
 	// 5 SERVFAIL at From domain; 6 NXDOMAIN at From domain, SERVFAIL at organisational domain; 7 timeout at From domain
@@ -164,6 +175,7 @@ func c07Gen(t *rapid.T) c07Scenario {
 	sc.SP = rapid.SampledFrom([]string{"", "", "none", "quarantine", "reject"}).Draw(t, "sp")
 	sc.Pct100 = rapid.IntRange(0, 3).Draw(t, "pct") == 0
 	sc.Lookup = rapid.SampledFrom([]int{0, 0, 0, 0, 1, 1, 1, 2, 3, 4, 5, 6, 7}).Draw(t, "lookup")
+	sc.CheckQuarantines = rapid.IntRange(0, 5).Draw(t, "check_quarantines") == 0
 	return sc
 }
 
@@ -388,7 +400,8 @@ func c07Execute(sc c07Scenario) c07Observed {
 	tgt := testutils.Target{}
 	p := MsgPipeline{
 		msgpipelineCfg: msgpipelineCfg{
-			globalChecks: []module.Check{&testutils.Check{BodyRes: module.CheckResult{AuthResult: c07AuthRes(sc)}}},
+			globalChecks: []module.Check{&testutils.Check{BodyRes: module.CheckResult{AuthResult: c07AuthRes(sc), Quarantine: sc.CheckQuarantines,
+				Reason: map[bool]error{true: &exterrors.SMTPError{Code: 550, EnhancedCode: exterrors.EnhancedCode{5, 7, 20}, Message: "check says quarantine"}, false: nil}[sc.CheckQuarantines]}}},
 			perSource:    map[string]sourceBlock{},
 			defaultSource: sourceBlock{
 				perRcpt:     map[string]*rcptBlock{},
@@ -464,6 +477,16 @@ func c07Execute(sc c07Scenario) c07Observed {
 
 func c07Run(sc c07Scenario) (vs []ev.V) {
 	want := c07Model(sc)
+	if sc.CheckQuarantines && want.Actions["accept"] {
+		// accepted by DMARC, but flagged by the check itself
+		acts := map[string]bool{}
+		for k, v := range want.Actions {
+			acts[k] = v
+		}
+		delete(acts, "accept")
+		acts["quarantine"] = true
+		want.Actions = acts
+	}
 	got := c07Execute(sc)
 	desc := func() string {
 		return fmt.Sprintf("From-shape=%d From-domain=%s dkim=%v spf=%v helo=%v record=%q lookup=%d; model: %s; observed action=%s verdict=%q %s",
